@@ -15,8 +15,8 @@ import subprocess
 import sys
 import time
 
-V = '/verif'
-REPO = '/repo'
+V = os.environ.get('HV_ROOT') or os.path.dirname(os.path.dirname(os.path.abspath(__file__)))
+REPO = os.environ.get('HV_REPO', '/repo')
 COQ = V + '/coq'
 GUARD = 'humphrey_verif'
 
@@ -79,8 +79,18 @@ def gen_tables():
 
 
 def coq_makefile():
+    """_CoqProject is generated from the files present (theories/*.v, props/*.v) so that adding a file needs no
+    shared edit; Makefile regenerated when the list changes."""
     mk = COQ + '/Makefile'
     cp = COQ + '/_CoqProject'
+    files = sorted('theories/' + f for f in os.listdir(COQ + '/theories') if f.endswith('.v')) + \
+        sorted('props/' + f for f in os.listdir(COQ + '/props') if f.endswith('.v'))
+    want = ('-Q theories Hv\n-Q props HvProps\n'
+            '-arg -w -arg -notation-overridden,-deprecated-hint-without-locality,-deprecated-instance-without-locality\n'
+            + '\n'.join(files) + '\n')
+    have = open(cp).read() if os.path.exists(cp) else ''
+    if want != have:
+        open(cp, 'w').write(want)
     if not os.path.exists(mk) or os.path.getmtime(cp) > os.path.getmtime(mk):
         sh('coq_makefile -f _CoqProject -o Makefile', cwd=COQ, check=True)
 
@@ -223,48 +233,57 @@ IMPL_BIN = V + '/harness/target/debug/hv_harness'
 IMPL_TOKIO_BIN = V + '/harness_tokio/target/debug/hv_harness_tokio'
 
 
-def run_lines(binary, lines, timeout=1800, shards=16):
-    """Feed case lines to a runner, sharded over processes; returns output lines (same order)."""
-    if not lines:
-        return []
-    nsh = max(1, min(shards, len(lines) // 200 + 1))
-    per = (len(lines) + nsh - 1) // nsh
-    procs = []
-    for i in range(nsh):
-        chunk = lines[i * per:(i + 1) * per]
-        if not chunk:
-            continue
-        data = ('\n'.join(chunk) + '\n').encode('utf-8')
+def _run_shard(binary, chunk, timeout):
+    """Run one shard; if the runner dies (abort, stack overflow, kill) mark that line DIED and continue after it."""
+    out = []
+    pos = 0
+    while pos < len(chunk):
+        data = ('\n'.join(chunk[pos:]) + '\n').encode('utf-8')
         p = subprocess.Popen('ulimit -s unlimited 2>/dev/null; exec ' + binary, shell=True, stdin=subprocess.PIPE,
                              stdout=subprocess.PIPE, stderr=subprocess.DEVNULL)
-        procs.append((p, data, len(chunk)))
-    # write/read with threads to avoid pipe deadlock
-    import threading
-    results = [None] * len(procs)
-
-    def work(k):
-        p, data, _ = procs[k]
         try:
             o, _e = p.communicate(data, timeout=timeout)
+            died = 'DIED'
         except subprocess.TimeoutExpired:
             p.kill()
-            o = b''
-        results[k] = o.decode('utf-8', 'replace').split('\n')
+            o, _e = p.communicate()
+            died = 'TIMEOUT'
+        r = o.decode('utf-8', 'replace').split('\n')
+        if r and r[-1] == '':
+            r = r[:-1]
+        need = len(chunk) - pos
+        if len(r) >= need:
+            out.extend(r[:need])
+            break
+        out.extend(r)
+        out.append(died)
+        pos += len(r) + 1
+    return out
 
-    ths = [threading.Thread(target=work, args=(k,)) for k in range(len(procs))]
+
+def run_lines(binary, lines, timeout=1800, shards=16):
+    """Feed case lines to a runner, sharded over processes; returns one output line per input line, in order.
+    A line on which the runner process dies yields DIED (TIMEOUT if it exceeded the time limit)."""
+    if not lines:
+        return []
+    import threading
+    nsh = max(1, min(shards, len(lines) // 200 + 1))
+    per = (len(lines) + nsh - 1) // nsh
+    chunks = [lines[i * per:(i + 1) * per] for i in range(nsh)]
+    chunks = [c for c in chunks if c]
+    results = [None] * len(chunks)
+
+    def work(k):
+        results[k] = _run_shard(binary, chunks[k], timeout)
+
+    ths = [threading.Thread(target=work, args=(k,)) for k in range(len(chunks))]
     for t in ths:
         t.start()
     for t in ths:
         t.join()
     out = []
-    for k, (p, data, n) in enumerate(procs):
-        r = results[k]
-        if r and r[-1] == '':
-            r = r[:-1]
-        if len(r) < n:
-            # the runner died (abort / stack overflow / timeout): mark the first missing line, rest unknown
-            r = r + ['DIED'] + ['NORESULT'] * (n - len(r) - 1)
-        out.extend(r[:n])
+    for r in results:
+        out.extend(r)
     return out
 
 
